@@ -1,0 +1,27 @@
+//go:build verif
+// +build verif
+
+package wal
+
+import "github.com/youzan/ZanRedisDB/common"
+
+// Verification hook (build tag verif only; add-only, no call sites).
+//
+// The package logger writes every repair attempt, ignored file and unrepairable
+// error to stdout. A harness that reopens tens of thousands of crash images in one
+// process needs to switch that off; the logger variable is unexported and has no
+// setter. Nothing else is exported here: the crash-image check (C05) drives the
+// package only through Create/Open/ReadAll/Save/SaveSnapshot/Sync/ReleaseLockTo/
+// Close/Repair/Verify/ValidSnapshotEntries and the exported SegmentSizeBytes.
+
+type verifQuietLogger struct{}
+
+func (verifQuietLogger) Output(maxdepth int, s string) error        { return nil }
+func (verifQuietLogger) OutputErr(maxdepth int, s string) error     { return nil }
+func (verifQuietLogger) OutputWarning(maxdepth int, s string) error { return nil }
+
+// VerifQuietLog replaces the package logger by one that drops every message
+// (Fatalf/Panicf still exit/panic). Call it before any WAL is opened.
+func VerifQuietLog() {
+	plog = common.NewLevelLogger(common.LOG_ERR, verifQuietLogger{})
+}
